@@ -1278,6 +1278,33 @@ fn wake_send_waiters<T>(waiters: &mut LinkedList<SendWaitQueueEntry<T>>) {''',
                     if self.is_fair {
                         // In a fair Semaphore, the WaitQueueEntry is kept in the''',
      'expect': {'C06': ['C06.R7']}},
+    # ---------------------------------------------------------------- found by the mutation sweep
+    {'name': 'mutex-starts-locked', 'file': 'src/sync/mutex.rs',
+     'old': '''            is_locked: false,''', 'new': '''            is_locked: true,''',
+     'expect': {'C02': ['C02.R0']}},
+    {'name': 'mpmc-starts-closed', 'file': 'src/channel/mpmc.rs',
+     'old': '''            is_closed: false,''', 'new': '''            is_closed: true,''',
+     'expect': {'C11': ['C11.R0'], 'C09': ['C09.R0']}},
+    {'name': 'mutex-try-lock-sync-and-instead-of-or', 'file': 'src/sync/mutex.rs',
+     'old': '''        if !self.is_locked && (!self.is_fair || self.waiters.is_empty()) {''',
+     'new': '''        if !self.is_locked && (!self.is_fair && self.waiters.is_empty()) {''',
+     'expect': {'C03': ['C03.R7']}},
+    {'name': 'sem-try-acquire-sync-and-instead-of-or', 'file': 'src/sync/semaphore.rs',
+     'old': '''                || self.waiters.is_empty()
+                || required_permits == 0)''',
+     'new': '''                && self.waiters.is_empty()
+                || required_permits == 0)''',
+     'expect': {'C06': ['C06.R8']}},
+    {'name': 'mutex-force-remove-inverted-panic', 'file': 'src/sync/mutex.rs',
+     'old': '''        if !self.waiters.remove(wait_node) {
+            // Panic if the address isn't found. This can only happen if the contract was
+            // violated, e.g. the WaitQueueEntry got moved after the initial poll.
+            panic!("Future could not be removed from wait queue");''',
+     'new': '''        if self.waiters.remove(wait_node) {
+            // Panic if the address isn't found. This can only happen if the contract was
+            // violated, e.g. the WaitQueueEntry got moved after the initial poll.
+            panic!("Future could not be removed from wait queue");''',
+     'expect': {'C01': ['C01.I1']}},
 ]
 
 ALLP = ['C01','C02','C03','C04','C05','C06','C07','C08','C09','C10','C11','C12','C13','C14','C15','C17','C18','C19','C20']
